@@ -103,7 +103,7 @@ def conduct_feature_ranking(vector_first: np.ndarray, vector_second: np.ndarray,
     elif heuristic == 'max-value-coverage':
         score = ranking_cov_alignment.max_pair_coverage(vector_first, vector_second)
 
-    elif heuristic == 'MI-numba-randomized':
+    elif 'MI-numba' in heuristic:
         score = numba_mi(vector_first, vector_second, heuristic, args.mi_stratified_sampling_ratio)
 
     elif heuristic == 'AMI':
